@@ -8,6 +8,14 @@ VERIF = os.path.dirname(os.path.dirname(os.path.abspath(__file__)))
 
 # property -> (technique, clause decided, trusted base / what is not decided, DESIGN ref)
 CLAIMS = {
+    "C32": ("lockset / typestate dataflow over the CFGs of abg-workers.cc (must/may held sets), path exploration with "
+            "correlated-branch pruning, waiter/mutation table derived from the loop conditions",
+            "lock/unlock pairing on all paths, every guarded field accessed under its mutex, every cond_wait in a "
+            "re-testing loop under the right mutex, every mutation that can release a waiter followed by the right "
+            "signal/broadcast (no lost wake-up), tasks popped in one critical section, performed outside locks, "
+            "recorded and notified exactly once under tasks_done_mutex, all workers joined",
+            "termination for all interleavings (liveness of the whole protocol) - a model-checking question",
+            "§3 R-LOCKSET family; §4 C32"),
     "C04": ("interprocedural taint rule over ostream insertions (sanitiser discipline) + CFG must-pass-through pairing "
             "of id references with record calls",
             "no string read from the IR reaches the XML stream without the sanitiser of its context (attribute / "
